@@ -37,7 +37,7 @@ VERUS = os.environ.get("VERIF_VERUS", "verus")
 def run_verus(path, rlimit=30, extra_args=(), num_threads=8, timeout=900):
     cmd = [VERUS, path, "--output-json", "--time", "--rlimit", str(rlimit),
            "--multiple-errors", "20", "--num-threads", str(num_threads),
-           "--no-report-long-running"] + list(extra_args) + ["--", "--error-format=json", "--edition=2024"]
+           "--no-report-long-running"] + list(extra_args) + os.environ.get("VERIF_VERUS_ARGS", "").split() + ["--", "--error-format=json", "--edition=2024"]
     t0 = time.time()
     try:
         p = subprocess.run(cmd, cwd=os.path.dirname(path), capture_output=True, text=True, timeout=timeout)
